@@ -423,7 +423,8 @@ ReadResult BinaryFileReader::internal_read_file(TopologyKernel &out)
         state_ = ReadState::ErrorEndNotReached;
         return ReadResult::InvalidFile;
     }
-    if (file_header_.n_verts != out.n_vertices()
+    if ((n_verts_read_ != 0 && n_verts_read_ != file_header_.n_verts)
+            || file_header_.n_verts != out.n_vertices()
             || file_header_.n_edges != out.n_edges()
             || file_header_.n_faces != out.n_faces()
             || file_header_.n_cells != out.n_cells())
